@@ -34,7 +34,76 @@ def make_inline_hook(prog: Program, cls: Optional[ClassInfo], module, max_depth:
                 return k.methods[fn.attr]
         return None
 
+    def _record_class(name: str):
+        full = prog.resolve_name(module, name) if module is not None else None
+        ci = prog.classes.get(full) if full else None
+        if ci is None:
+            return None, []
+        from .frontend import decorators as _decos, norm as _norm
+        is_rec = any(_norm(b).split(".")[-1] == "NamedTuple" for b in ci.node.bases) or any(d.split(".")[-1].split("(")[0] == "dataclass" for d in _decos(ci.node))
+        if not is_rec or "__init__" in ci.methods or "__post_init__" in ci.methods or "__new__" in ci.methods:
+            return None, []
+        fields = [st.target.id for st in ci.node.body if isinstance(st, ast.AnnAssign) and isinstance(st.target, ast.Name)]
+        return ci, fields
+
+    def _record_hook(env: Env, call: ast.Call) -> Any:
+        """Cls(a, b) for a NamedTuple / dataclass of the repository: a record of abstract values; rec.method(args): the method inlined with the record's
+        fields as self.<field>"""
+        from .absint import RecV
+        fn = call.func
+        if isinstance(fn, ast.Name) and fn.id not in env.vars:
+            ci, fields = _record_class(fn.id)
+            if ci is not None and len(call.args) + len(call.keywords) == len(fields) and not any(isinstance(a, ast.Starred) for a in call.args):
+                vals = {}
+                for n_, a_ in zip(fields, call.args):
+                    vals[n_] = evaluate(env, a_)
+                for k_ in call.keywords:
+                    if k_.arg not in fields:
+                        return None
+                    vals[k_.arg] = evaluate(env, k_.value)
+                return RecV(ci, vals) if len(vals) == len(fields) else None
+            return None
+        if isinstance(fn, ast.Attribute) and isinstance(fn.value, (ast.Call, ast.Name)) and not (isinstance(fn.value, ast.Name) and fn.value.id == "self") \
+                and len(stack) < max_depth:
+            if isinstance(fn.value, ast.Name) and not isinstance(env.vars.get(fn.value.id), RecV):
+                return None
+            recv = evaluate(env, fn.value)
+            if not isinstance(recv, RecV):
+                return None
+            target = prog.lookup_method(recv.cls, fn.attr)
+            if target is None or not isinstance(target.node, ast.FunctionDef) or target.fullname in stack or is_stub(target.node) \
+                    or any(isinstance(x, (ast.For, ast.While, ast.Try, ast.With, ast.Yield, ast.YieldFrom)) for x in ast.walk(target.node)):
+                return None
+            a = target.node.args
+            names = [x.arg for x in a.posonlyargs + a.args][1:]
+            if len(call.args) > len(names):
+                return None
+            sub = env.copy()
+            sub.facts = env.facts
+            for p_, av in zip(names, call.args):
+                sub.vars[p_] = evaluate(env, av)
+            for k_ in call.keywords:
+                if k_.arg:
+                    sub.vars[k_.arg] = evaluate(env, k_.value)
+            for f_, v_ in recv.fields.items():
+                sub.vars[f"self.{f_}"] = v_
+            stack.append(target.fullname)
+            cls_stack.append(recv.cls)
+            try:
+                outs = interp(target.node.body, sub)
+            finally:
+                stack.pop()
+                cls_stack.pop()
+            live = [o for o in outs if o.kind != "raise"]
+            if len(live) == 1 and live[0].kind == "return" and live[0].value is not None:
+                return live[0].value
+            return Opaque(f"method {target.name} of a record has {len(live)} returning paths")
+        return None
+
     def hook(env: Env, call: ast.Call) -> Any:
+        r_ = _record_hook(env, call)
+        if r_ is not None:
+            return r_
         target: Optional[FunctionInfo] = None
         fn = call.func
         if _super_target(fn) is not None:
